@@ -254,3 +254,22 @@ Proof.
 Qed.
 Lemma hw_corruption_table addr len : corruption_table_ok addr len = true.
 Proof. unfold corruption_table_ok. rewrite hw_corrupted_abis_refused, hw_corrupted_headers_refused. reflexivity. Qed.
+
+(* the stored copy is self-contained: every block of the tree laid out by the writer starts inside the mapping, after the
+   header and before the end of the get_length bytes; together with C12 nodes_closed (every pointer held by a block of
+   the copy is the address of a block of the copy) no pointer of the stored image leaves the mapping, except the cells
+   declared shared (object userdata) *)
+Lemma hw_stored_copy_self_contained t base :
+  model_wf t = true ->
+  let at1 := fst (write_run t base) in
+  (forall a, In a (addrs at1) -> base + SHMEM_HEADER_LENGTH <= a < base + get_length (sizes ksize t)) /\
+  (forall a b p, In (a, b) (nodes at1) -> In p (hptrs b) -> In p (addrs at1)).
+Proof.
+  intros W at1. split; [|intros a b p; apply nodes_closed].
+  intros a Ha. unfold at1, write_run in *.
+  destruct (assign ksize write_allocator t (write_start base)) as [t1 s1] eqn:E. simpl in Ha.
+  pose proof (assign_fresh ksize write_allocator _ write_allocator_spec t _ _ _ W E) as (_ & F & _).
+  destruct (F a Ha) as [F1 F2]. simpl in F1, F2.
+  pose proof (hw_length_suffices t base) as (L & _ & _). unfold cursor_end, write_run in L. rewrite E in L. simpl in L.
+  unfold write_start in F1. simpl in F1. lia.
+Qed.
